@@ -1,15 +1,15 @@
 import OpcuaModel.Base.Loop
-import OpcuaModel.Props.C23
+import OpcuaModel.Model.CfgAliasFacts
 /-
   Driver for C23.
-    run (c | w <path> <valueHex> | r <path> (u<N> | fresh))*
-  `c` starts the next client; `w` = an option assigns the selector path (components joined by '.'),
+    run ((c | cx) | w <path> <valueHex> | r <path> (u<N> | fresh))*
+  `c` starts the next client (`cx`: its construction fails after the options ran — not reported); `w` = an option assigns the selector path (components joined by '.'),
   `r` = an option replaces the pointer at the path by a caller-supplied object u<N> or a fresh one.
   Answer: every (client, path) whose effective value at the end of the program differs from the
   pristine default, and every cell of a package-level object that differs from its pristine
   content, as `<k>:<path>=<valueHex>` / `<global>:<path>=<valueHex>`, sorted; `-` if none.
 -/
-open Opcua Opcua.CfgAlias Opcua.Props.C23
+open Opcua Opcua.CfgAlias
 
 def parsePath (s : String) : Path := s.splitOn "."
 def showPath (p : Path) : String := ".".intercalate p
@@ -17,18 +17,19 @@ def showPath (p : Path) : String := ".".intercalate p
 def hexStr (s : String) : String := toHex s.toUTF8.toList
 def unhexStr (s : String) : Option String := (fromHex s).bind fun b => String.fromUTF8? (ByteArray.mk b.toArray)
 
-/-- tokens → clients (in order) -/
-def parseProg : List String → List (List Step) → List Step → Option (List (List Step))
+/-- tokens → clients (in order); the flag says "construction failed: not reported" -/
+def parseProg : List String → List (Bool × List Step) → Bool × List Step → Option (List (Bool × List Step))
   | [], acc, cur => some (acc ++ [cur])
-  | "c" :: rest, acc, cur => parseProg rest (acc ++ [cur]) []
+  | "c" :: rest, acc, cur => parseProg rest (acc ++ [cur]) (false, [])
+  | "cx" :: rest, acc, cur => parseProg rest (acc ++ [cur]) (true, [])
   | "w" :: p :: v :: rest, acc, cur =>
     match unhexStr v with
-    | some s => parseProg rest acc (cur ++ [.write (parsePath p) s])
+    | some s => parseProg rest acc (cur.1, cur.2 ++ [.write (parsePath p) s])
     | none => none
   | "r" :: p :: t :: rest, acc, cur =>
-    if t = "fresh" then parseProg rest acc (cur ++ [.redirect (parsePath p) none])
+    if t = "fresh" then parseProg rest acc (cur.1, cur.2 ++ [.redirect (parsePath p) none])
     else match (t.drop 1).toNat? with
-      | some u => parseProg rest acc (cur ++ [.redirect (parsePath p) (some u)])
+      | some u => parseProg rest acc (cur.1, cur.2 ++ [.redirect (parsePath p) (some u)])
       | none => none
   | _, _, _ => none
 
@@ -39,9 +40,10 @@ def writtenPaths : List Step → List Path
 
 def dedup (l : List String) : List String := l.foldl (fun acc x => if acc.contains x then acc else acc ++ [x]) []
 
-def report (prog : List (List Step)) : String :=
+def report (flagged : List (Bool × List Step)) : String :=
+  let prog := flagged.map (·.2)
   let h := runClients facts 0 emptyHeap prog
-  let perClient := (List.range prog.length).flatMap fun k =>
+  let perClient := ((List.range prog.length).filter fun k => !(flagged.getD k (true, [])).1).flatMap fun k =>
     let steps := prog.getD k []
     let paths := Gen.Config.defaults.map (·.1) ++ writtenPaths steps
     paths.filterMap fun p =>
@@ -58,7 +60,11 @@ def report (prog : List (List Step)) : String :=
 
 def handle : List String → String
   | "run" :: "c" :: toks =>
-    match parseProg toks [] [] with
+    match parseProg toks [] (false, []) with
+    | some prog => report prog
+    | none => "bad-op"
+  | "run" :: "cx" :: toks =>
+    match parseProg toks [] (true, []) with
     | some prog => report prog
     | none => "bad-op"
   | ["run"] => "-"
